@@ -138,6 +138,11 @@ def _gen_session(wl, plan, s, plots):
     while len(ops) < n_ops:
         r = wl.random()
         sig = 'S%d' % wl.randrange(nsig)
+        if plan['config'] == 'sequential' and ops and wl.random() < 0.06:
+            # (never with interleaved sessions: editing a dict another session is using is the
+            # caller's own race, not the library's)
+            ops.append(_gen_user_edit(wl))
+            continue
         if r < 0.30 or not avail:
             method = wl.choice(('cycles', 'amp', 'amp'))
             center = wl.choice(('peak', 'trough'))
@@ -317,6 +322,23 @@ def _gen_session(wl, plan, s, plots):
                 op = {'fn': 'plot_cparr', 'sig': t['sig'], 'ext': e['name'], 'xlim': op.get('xlim')}
             ops.append(op)
     return ops
+
+
+def _gen_user_edit(wl):
+    """The caller edits one of its own option dicts in place between two calls."""
+    name = wl.choice(('THC0', 'THC1', 'THA0', 'THA1', 'BK0', 'FK0', 'FE0'))
+    if name.startswith('THC'):
+        key, val = wl.choice(CYC_TH), wl.choice((0.2, 0.3, 0.4, 0.6, 0.7))
+    elif name.startswith('THA'):
+        key, val = wl.choice((('burst_fraction_threshold', wl.choice((0.4, 0.6, 0.9))),
+                              ('min_n_cycles', wl.choice((1, 2, 4, 5)))))
+    elif name == 'BK0':
+        key, val = 'min_n_cycles', wl.choice((1, 2, 4, 5))
+    elif name == 'FK0':
+        key, val = 'n_cycles', wl.choice((3, 4, 5))
+    else:
+        key, val = 'boundary', wl.choice((0, 2, 6))
+    return {'fn': 'user_edit', 'obj': name, 'key': key, 'value': val}
 
 
 def rname_prev(s, ops):
@@ -598,6 +620,8 @@ def _pure_eval(op, values, band):
 def op_names(op):
     """Pool names an operation draws by reference."""
     out = []
+    if op['fn'] == 'user_edit':
+        return [op['obj']]
     for k in ('sig', 'th', 'bk', 'fe', 'fk', 'table', 'ext', 'zx', 'fr'):
         if op.get(k):
             out.append(op[k])
@@ -640,6 +664,7 @@ class Session:
             plan, pool, res, tape, ctl, sim, hist
         self.first = {}        # (session, op index) -> outcome of the first evaluation
         self.stop = False
+        self.edited = False
 
     def pure(self, op):
         """The pure interpreter: the same call on private copies of the pristine values of its
@@ -649,6 +674,21 @@ class Session:
 
     def run_op(self, s, n, op, arm=None, repeat=False):
         pool, res = self.pool, self.res
+        if op['fn'] == 'user_edit':
+            if repeat:
+                return
+            ch = pool.changed()
+            if ch is None:          # (an earlier mutation by the library is reported by the call that follows)
+                pool.objs[op['obj']][op['key']] = op['value']
+                for nm in pool.objs:            # the edited dict and every dict that nests it
+                    fp = fingerprint(pool.objs[nm])
+                    if fp != pool.fp[nm]:
+                        pool.pristine[nm] = copy.deepcopy(pool.objs[nm])
+                        pool.fp[nm] = fp
+                res.stats['user_edits'] += 1
+                self.edited = True
+            self.hist.append((s, 'user_edit', (op['obj'], op['key']), 'ok'))
+            return
         names = op_names(op)
         if any(nm not in pool.objs for nm in names):
             self.hist.append((s, op['fn'], 'skipped'))
@@ -762,7 +802,7 @@ def execute(plan, tape):
                     raise e
         else:
             body(0)
-        if plan.get('repeat') and not sess.stop and res.vclass is None:
+        if plan.get('repeat') and not sess.stop and res.vclass is None and not sess.edited:
             order = sorted(sess.first)
             random.Random(tape.choose(1 << 16, 'repeat-order')).shuffle(order)
             for (s, n) in order:
